@@ -90,13 +90,15 @@ public:
         unsafe_set_size(count);
     }
 
-    /// Constructs the string with the contents of the range [ first,
-    /// last). Fails silently if input length is greater then capacity.
+    /// Constructs the string with the contents of the range [ first, last).
+    /// \pre distance(first, last) <= Capacity
     template <typename InputIt>
         requires(detail::InputIterator<InputIt>)
     constexpr basic_inplace_string(InputIt first, InputIt last) noexcept
-        : basic_inplace_string(first, static_cast<size_type>(distance(first, last)))
     {
+        // the range need not be contiguous (reverse iterators, forward-only iterators): it is appended
+        // character by character instead of being handed to the (pointer, length) constructor
+        append(first, last);
     }
 
     /// Constructs the string with a substring [pos, pos+count) of other.
